@@ -19,8 +19,8 @@ RULE = ('cases = (signature, option setting from {cse} x {graded} x {codegen_sym
         'non-zero default result.')
 ASSUMPTIONS = ['the default-options algebra is the reference (its operators are decided by C02-C08)', 'relative tolerance 1e-9']
 BOUNDS = {
-    'quick': 'all 24 option settings x {Algebra(2), Algebra(1,0,1)}, grade blocks G(2) x G(2); Algebra(2,0,1) and Algebra(3): 8 option settings x 4x4 blocks',
-    'thorough': 'all 24 option settings x pqr(d) d<=2 + mixed orderings, pqr(3) (G(3) x 6 blocks), 4 signatures of d=4 with 6 option settings',
+    'quick': 'Algebra(2), Algebra(1,0,1): all 23 non-default option settings (all grade blocks for <=2 deviations without the sympy symbol class, 4 blocks otherwise); Algebra(2,0,1), Algebra(3): single-deviation settings x 4 blocks',
+    'thorough': 'all 23 non-default settings x pqr(d) d<=2 + mixed orderings; pqr(3) x 11 non-sympy settings x 6 blocks; 3 signatures of d=3 x sympy-symbol-class settings (<=2 deviations); 4 signatures of d=4 x single-deviation settings x 3 blocks',
 }
 
 
@@ -119,15 +119,21 @@ def shards(tier, seed):
             add('d=2: option settings with <=2 deviations from the default x all grade blocks (4 blocks when the sympy symbol class is used)', c,
                 [o for o in opts if deviations(o) <= 2 and o['symcls'] == 'sympy'], 'four')
             add('d=2: option settings with 3 and 4 deviations x 4 grade blocks', c, [o for o in opts if deviations(o) > 2 and o['symcls'] != 'sympy'], 'four')
-        for c in [spaces.cfg_pqr(2, 0, 1), spaces.cfg_pqr(3, 0, 0)]:
-            add('d=3: single-deviation option settings x 4 grade blocks', c, [o for o in opts if deviations(o) == 1 and o['symcls'] != 'sympy'], 'four')
+        add('d=3: single-deviation option settings x 4 grade blocks (3 small blocks in Algebra(3))', spaces.cfg_pqr(2, 0, 1), [o for o in opts if deviations(o) == 1 and o['symcls'] != 'sympy'], 'four')
+        add('d=3: single-deviation option settings x 4 grade blocks (3 small blocks in Algebra(3))', spaces.cfg_pqr(3, 0, 0), [o for o in opts if deviations(o) == 1 and o['symcls'] != 'sympy'], 'three')
     else:
-        for c in [spaces.cfg_pqr(*t) for d in (1, 2) for t in spaces.pqr(d)] + [spaces.cfg_sig(s) for s in spaces.mixed_orderings(2)]:
-            add('d<=2: all 23 non-default option settings x all grade blocks', c, opts, 'all')
+        nons = [o for o in opts if o['symcls'] != 'sympy']
+        sym = [o for o in opts if o['symcls'] == 'sympy']
+        # most expensive shards first (a sympy-symbol-class shard in d=3 takes ~5 CPU-minutes)
+        for c in [spaces.cfg_pqr(3, 0, 0), spaces.cfg_pqr(2, 0, 1), spaces.cfg_pqr(1, 1, 1)]:
+            add('d=3 (3 signatures): sympy symbol class settings with <=2 deviations x 4 grade blocks', c, [o for o in sym if deviations(o) <= 2], 'four')
         for t in spaces.pqr(3):
-            add('d=3 pqr: all option settings x 6 grade blocks', spaces.cfg_pqr(*t), opts, 'six')
+            add('d=3 pqr: all 11 non-sympy option settings x 6 grade blocks', spaces.cfg_pqr(*t), nons, 'six')
+        for c in [spaces.cfg_pqr(*t) for d in (1, 2) for t in spaces.pqr(d)] + [spaces.cfg_sig(s) for s in spaces.mixed_orderings(2)]:
+            add('d<=2: all 23 non-default option settings x all grade blocks (4 blocks for the sympy symbol class)', c, nons, 'all')
+            add('d<=2: all 23 non-default option settings x all grade blocks (4 blocks for the sympy symbol class)', c, sym, 'four')
         for c in [spaces.cfg_pqr(4, 0, 0), spaces.cfg_pqr(3, 0, 1), spaces.cfg_pqr(1, 3, 0), spaces.cfg_sig([1, -1, 0, 1])]:
-            add('d=4: 6 option settings x 4 grade blocks', c, six, 'four')
+            add('d=4: single-deviation non-sympy settings x 3 small grade blocks', c, [o for o in nons if deviations(o) == 1], 'three')
     return sh
 
 
@@ -139,7 +145,7 @@ def blocks_for(alg, which):
         return G
     d = alg.d
     g = spaces.grade_of
-    pick = [(1,), (0, 2), (2,), (0, 1, 2, 3)[:d + 1]] if which == 'four' else [(0,), (1,), (2,), (0, 2), (1, 3)[:2 if d >= 3 else 1], tuple(range(d + 1))]
+    pick = [(1,), (2,), (0, 2)] if which == 'three' else [(1,), (0, 2), (2,), (0, 1, 2, 3)[:d + 1]] if which == 'four' else [(0,), (1,), (2,), (0, 2), (1, 3)[:2 if d >= 3 else 1], tuple(range(d + 1))]
     out = []
     for gs in pick:
         t = tuple(k for k in c if g(k) in gs)
